@@ -1,5 +1,5 @@
 (* C18/Properties.v — property theorems only. Each is closed by a lemma of C18/Proofs.v. *)
-From Relic Require Import Base.Prelude Base.Enc Base.Hex Generated.C18_gen C18.Model C18.Proofs.
+From Relic Require Import Base.Prelude Base.Enc Base.Hex Generated.C18_gen C18.Model C18.Proofs C18.DirModel C18.DirProofs.
 From Coq Require Import Permutation String.
 
 (* ---------------------------------------------------------------- (a) red-black insertion *)
@@ -95,24 +95,135 @@ Proof. exact C18.Proofs.cfb_check_sound. Qed.
 Theorem relic_order_eq_cfb : forall a b, zlen a < name_runes -> zlen b < name_runes ->
   forallb unit_agrees a = true -> forallb unit_agrees b = true -> relic_less a b = cfb_less a b.
 Proof. exact C18.Proofs.relic_less_eq_cfb_less. Qed.
-(* ... and the domain is: all code units below 256, all surrogate halves, every code unit >= 256 that unicode.ToUpper leaves
-   alone (in particular the packed MSI names 0x3800..0x4840).  For cased letters above U+00FF the Coq transcription of the
-   MS-CFB order (upcase) is caseless; there Go's table is the reference and the harness compares the real comparator with it. *)
-Theorem agreement_domain :
-  (forall u, 0 <= u < 256 -> unit_agrees u = true) /\
-  (forall u, upper_unit_is_surrogate u = true -> unit_agrees u = true) /\
-  (forall u, 256 <= u -> unit_agrees u = (upper_unit u =? u)) /\
-  (forall u, 14336 <= u <= 18496 -> unit_agrees u = true).
-Proof.
-  exact (conj C18.Proofs.unit_agrees_below_256 (conj C18.Proofs.unit_agrees_surrogate
-        (conj C18.Proofs.unit_agrees_from_256 C18.Proofs.unit_agrees_msi_range))).
-Qed.
-Theorem relic_order_differs_outside_domain : exists a b, relic_less a b <> cfb_less a b.
-Proof. exact C18.Proofs.relic_less_vs_cfb_outside_domain. Qed.
+(* ... and the domain is every code unit: relic's upperUnit (unicode.ToUpper of the toolchain as read by srcgen, surrogate halves
+   untouched) equals the upper-casing of the MS-CFB order (Unicode Character Database table, C18/UnicodeSpec.v) *)
+Theorem agreement_domain : forall u, unit_agrees u = true.
+Proof. exact C18.Proofs.unit_agrees_all. Qed.
+Theorem upper_unit_is_ucd_simple_upper : forall u, upper_unit u = upcase u.
+Proof. exact C18.Proofs.upper_unit_is_upcase. Qed.
+Theorem relic_order_is_cfb : forall a b, zlen a < name_runes -> zlen b < name_runes -> relic_less a b = cfb_less a b.
+Proof. exact C18.Proofs.relic_less_is_cfb_less. Qed.
 (* 15. the MS-CFB order is a strict order (what theorem 2 needs of the comparator) *)
 Theorem cfb_order_strict : (forall a, cfb_less a a = false) /\
   (forall a b c, cfb_less a b = true -> cfb_less b c = true -> cfb_less a c = true).
 Proof. split; [exact C18.Proofs.cfb_less_irrefl | exact C18.Proofs.cfb_less_trans]. Qed.
+
+(* ---------------------------------------------------------------- (d) the children of the root storage: DeleteFile / AddFile / InsertMSISignature / rebuildTree
+   Model: C18/DirModel.v (every comparison, constant, branch condition and statement-presence flag is a definition of Generated/C18_gen.v);
+   specification: spec_unique / spec_same / spec_tree_ok of C18/DirModel.v Part D over cfb_less of C18/Model.v Part 3.
+   valid_dir st = the directory of a valid compound file: every child of the root is an allocated entry with a well-formed name, no two
+   children carry the same name under the MS-CFB comparison, the root storage is not its own child. *)
+(* 16. lessDirEnt on two directory entries with well-formed names IS the MS-CFB order of the names they carry *)
+Theorem ent_order_is_cfb_order : forall a b, wf_name a -> wf_name b -> ent_less a b = cfb_less (ent_units a) (ent_units b).
+Proof. exact C18.DirProofs.ent_less_is_spec_less. Qed.
+(* 17. lessDirEnt is a strict order on ALL entries (any NameLength, any code units), and "ordered neither way" is equality of the
+       key (NameLength, upper-cased units the loop looks at): what the red-black tree needs of its comparator *)
+Theorem ent_less_strict :
+  (forall a, ent_less a a = false) /\
+  (forall a b c, ent_less a b = true -> ent_less b c = true -> ent_less a c = true) /\
+  (forall a b, ent_same a b = true <-> ekey a = ekey b).
+Proof. exact (conj C18.DirProofs.ent_less_irrefl (conj C18.DirProofs.ent_less_trans C18.DirProofs.ent_same_iff)). Qed.
+(* 18. DeleteFile(name): the result is again a valid directory; a name of more than 31 code units changes nothing; otherwise exactly
+       the children carrying the name (MS-CFB comparison) are removed, they were streams and their entries are blanked, every other
+       child is the same entry as before and does not carry the name *)
+Theorem delete_file_spec : forall name st st', valid_dir st -> delete_file name st = Ok st' ->
+  valid_dir st' /\ same_geometry st st' /\
+  (fits name = false -> st' = st) /\
+  (fits name = true ->
+     d_root_files st' = kept_of name st /\
+     (forall i, In i (d_root_files st') -> get_ent (d_files st') i = get_ent (d_files st) i /\
+                                           spec_same (ent_units (get_ent (d_files st') i)) (ent_units (probe_of name)) = false) /\
+     (forall i, In i (d_root_files st) -> ~ In i (d_root_files st') ->
+                get_ent (d_files st') i = blank /\ f_type (get_ent (d_files st) i) = dir_stream /\
+                spec_same (ent_units (get_ent (d_files st) i)) (ent_units (probe_of name)) = true)).
+Proof. exact C18.DirProofs.delete_file_spec. Qed.
+(* 19. AddFile(name, contents): the children that carried the name are gone, every other child is the same entry as before, exactly
+       one new stream entry with that key and the given size is appended, and the state is well formed again (names unique) *)
+Theorem add_file_spec : forall name len st st', wf st -> add_file name len st = Ok st' ->
+  exists idx,
+    fits name = true /\
+    d_root_files st' = kept_of name st ++ [idx] /\ ~ In idx (kept_of name st) /\ idx <> d_root st /\ 0 <= idx < zlen (d_files st') /\
+    ekey (get_ent (d_files st') idx) = ekey (probe_of name) /\ f_type (get_ent (d_files st') idx) = dir_stream /\
+    f_size (get_ent (d_files st') idx) = len /\
+    (forall i, In i (kept_of name st) -> get_ent (d_files st') i = get_ent (d_files st) i) /\
+    same_geometry st st' /\ d_changed st' = true /\ wf st'.
+Proof. exact C18.DirProofs.add_file_spec. Qed.
+Theorem valid_dir_is_wf : forall st, valid_dir st <-> wf st.
+Proof. exact C18.DirProofs.valid_dir_wf. Qed.
+(* 20. every history of AddFile / DeleteFile / InsertMSISignature (any names, any sizes, any length) that succeeds leaves the names
+       of the root's children unique *)
+Theorem history_names_unique : forall ops st st', wf st -> run_ops ops st = Ok st' -> wf st'.
+Proof. exact C18.DirProofs.run_ops_wf. Qed.
+(* 21. InsertMSISignature: afterwards the root's children are, in order, the former children that carried neither signature name
+       (same entries), then - only if an extended signature was given - ONE stream entry with the key of msiDigitalSignatureEx and
+       len(exsig) bytes, then ONE stream entry with the key of msiDigitalSignature and len(pkcs) bytes; whatever carried one of the
+       two names before, in any spelling, is gone *)
+Theorem insert_sig_spec : forall pk ex st st', wf st -> insert_sig pk ex st = Ok st' ->
+  wf st' /\ d_changed st' = true /\ same_geometry st st' /\
+  (forall i, In i (others st) -> get_ent (d_files st') i = get_ent (d_files st) i) /\
+  exists isig,
+    ekey (get_ent (d_files st') isig) = ekey p_sig /\ f_type (get_ent (d_files st') isig) = dir_stream /\ f_size (get_ent (d_files st') isig) = pk /\
+    if insert_has_exsig ex then
+      exists iex, d_root_files st' = others st ++ [iex; isig] /\
+        ekey (get_ent (d_files st') iex) = ekey p_ex /\ f_type (get_ent (d_files st') iex) = dir_stream /\ f_size (get_ent (d_files st') iex) = ex
+    else d_root_files st' = others st ++ [isig].
+Proof. exact C18.DirProofs.insert_sig_spec. Qed.
+(* 21b. the pre-check: a refusal is returned before any AddFile / DeleteFile is evaluated, so the document is as it was; an entry
+        that is not a stream, is listed in the root storage and carries one of the two signature names (comdoc.SameName) is refused *)
+Theorem insert_sig_refusal_is_early : forall pk ex st e, precheck st = Err e -> insert_sig pk ex st = Err e.
+Proof. exact C18.DirProofs.insert_sig_refusal. Qed.
+Theorem storage_in_signature_slot_refused : forall pk ex st l i, list_root st = Ok l -> In i l -> sig_slot_blocked (d_files st) i = true ->
+  insert_sig pk ex st = Err E_STORAGE.
+Proof. exact C18.DirProofs.slot_blocked_refused. Qed.
+(* 21c. ... and that early refusal is the ONLY storage refusal: when ListDir sees every child of the root (a document as opened: readDir
+        fills rootFiles from ListDir(nil)) and the pre-check has passed, no AddFile / DeleteFile of the plan stops half-way with
+        "can't delete or replace storages".  So a signing refused because of a storage leaves the document exactly as it was. *)
+Theorem no_late_storage_refusal : forall pk ex st l, wf st -> list_root st = Ok l -> (forall i, In i (d_root_files st) -> In i l) ->
+  precheck st = Ok tt -> insert_sig pk ex st <> Err E_STORAGE.
+Proof. exact C18.DirProofs.no_late_storage_refusal. Qed.
+(* 22. the tree rebuildTree builds: a search tree under lessDirEnt, a valid red-black tree, exactly the root's children, in-order
+       strictly increasing (no duplicate keys) *)
+Theorem rebuild_tree_valid : forall st, wf st ->
+  let t := rebuild_tree (d_files st) (d_root_files st) in
+  bst Z (idx_less (d_files st)) t /\ rb_valid Z t /\ Permutation (elements Z t) (d_root_files st) /\
+  sorted_by (idx_less (d_files st)) (elements Z t).
+Proof. exact C18.DirProofs.rebuild_tree_valid. Qed.
+(* 23. the links rebuildTree writes into the entries read back as that tree *)
+Theorem write_links_readback : forall t fs fuel, NoDup (elements Z t) -> Forall (fun i => 0 <= i < zlen fs) (elements Z t) ->
+  (height t < fuel)%nat -> read_tree fuel (write_links t fs) (root_id t) = Some t.
+Proof. exact C18.DirProofs.write_links_readback. Qed.
+(* 24. after ANY successful history that changed the document and left the root non-empty, the names of the root's children are unique
+       in the sense of [MS-CFB] and the directory Close leaves behind satisfies the specification of the root's tree: it reads back,
+       is a valid red-black tree, its in-order names are strictly increasing in the MS-CFB order, it holds exactly the root's children *)
+Theorem history_then_close : forall ops st st', valid_dir st -> run_ops ops st = Ok st' -> d_changed st' = true -> d_root_files st' <> [] ->
+  spec_unique (root_names st') = true /\
+  spec_tree_ok (d_files (close_dir st')) (f_child (get_ent (d_files (close_dir st')) (d_root st'))) (d_root_files st') = true.
+Proof. exact C18.DirProofs.history_then_close. Qed.
+(* 25. the same for one InsertMSISignature (no side conditions: it always changes the document and leaves a child) *)
+Theorem sign_then_close : forall pk ex st st', valid_dir st -> insert_sig pk ex st = Ok st' ->
+  spec_unique (root_names st') = true /\
+  spec_tree_ok (d_files (close_dir st')) (f_child (get_ent (d_files (close_dir st')) (d_root st'))) (d_root_files st') = true.
+Proof. exact C18.DirProofs.sign_then_close. Qed.
+(* 26. replaced streams release their sectors: freeSectors frees exactly the chain it is given; DeleteFile on a valid directory removes
+       at most one child and hands that stream's chain to freeSectors in the table its size selects, leaving the other table alone *)
+Theorem free_sectors_exact : forall t s l, schain t s l ->
+  zlen (go_free t s) = zlen t /\ (forall j, In j l -> sget (go_free t s) j = secid_free) /\
+  (forall j, 0 <= j -> ~ In j l -> sget (go_free t s) j = sget t j).
+Proof. exact C18.DirProofs.go_free_spec. Qed.
+Theorem delete_releases : forall name st st', wf st -> delete_file name st = Ok st' -> fits name = true ->
+  (existsb (matches (probe_of name) (d_files st)) (d_root_files st) = false -> d_sat st' = d_sat st /\ d_ssat st' = d_ssat st) /\
+  (forall i, In i (d_root_files st) -> matches (probe_of name) (d_files st) i = true ->
+     (d_sat st', d_ssat st') = freed_tables (d_cutoff st) (get_ent (d_files st) i) (d_sat st) (d_ssat st) /\
+     d_root_files st' = filter (fun j => negb (j =? i)) (d_root_files st)).
+Proof. exact C18.DirProofs.delete_releases. Qed.
+(* 27. LIVE facts about the source as srcgen reads it: the tree descends right exactly when Less(node, new) holds; every error of
+       DeleteFile / addStream / newDirEnt / AddFile is returned to the caller; the two signature names are ASCII *)
+Theorem source_facts :
+  (forall (X : Type) (lt : X -> X -> bool) x a, rb_descend_right lt x a = lt x a) /\
+  addfile_delete_err_returned && addfile_stream_err_returned && addfile_dirent_err_returned &&
+    insert_err0_returned && insert_err1_returned && insert_err2_returned = true /\
+  forallb (fun b => (0 <=? b) && (b <? 128)) (msi_sig_name ++ msi_sigex_name) = true.
+Proof. exact (conj C18.DirProofs.rb_descend_right_is_less (conj C18.DirProofs.errors_are_returned C18.DirProofs.sig_names_are_ascii)). Qed.
 
 (* ---------------------------------------------------------------- non-vacuity *)
 Example repaired_tree_is_valid : rb_ok Z (insert_all Z Z.ltb true true [5; 3; 8; 1; 4; 7; 9; 2; 6; 0]) = true.
@@ -132,3 +243,66 @@ Example sample_file_accepted : cfb_check sample_file = true.
 Proof. vm_compute. reflexivity. Qed.
 Example sample_file_valid : cfb_valid sample_file.
 Proof. apply C18.Proofs.cfb_check_sound. vm_compute. reflexivity. Qed.
+
+(* a directory with a root (entry 0), a stream "\5digitalsignature" (entry 1, 5000 bytes at sector 3) and a stream "Other" (entry 2) *)
+Definition ex_entry (name : list Z) (typ start size : Z) : dent :=
+  mkDent (pad_runes (name ++ [0])) (2 * (zlen name + 1)) typ 1 (-1) (-1) (-1) start size.
+Definition ex_state : dstate :=
+  mkD [ex_entry [82; 111; 111; 116] 5 (-2) 0;
+       ex_entry [5; 100; 105; 103; 105; 116; 97; 108; 115; 105; 103; 110; 97; 116; 117; 114; 101] 2 3 5000;
+       ex_entry [79; 116; 104; 101; 114] 2 13 4096; blank]
+      [1; 2] ([-3; -2; -2] ++ [4; 5; 6; 7; 8; 9; 10; 11; 12; -2] ++ [14; 15; 16; 17; 18; 19; 20; -2] ++ repeat (-1) 107) [] 0 512 64 4096 false.
+Example ex_state_valid : valid_dir ex_state.
+Proof.
+  unfold valid_dir. split; [|split; [|split; [|split; [|split; [|split]]]]].
+  - repeat constructor; vm_compute; try reflexivity; intros H; discriminate H.
+  - repeat constructor; vm_compute; try reflexivity; intros H; discriminate H.
+  - repeat constructor; vm_compute; intros H; discriminate H.
+  - vm_compute. reflexivity.
+  - vm_compute. intros [H|[H|[]]]; discriminate H.
+  - vm_compute. split; [intros H; discriminate H | reflexivity].
+  - vm_compute. intros H; discriminate H.
+Qed.
+(* signing it replaces the lower-case stream: the children are then Other, \5MsiDigitalSignatureEx (in the free entry 3) and
+   \5DigitalSignature (in entry 1, which the replaced stream gave up together with its sectors 3..12) *)
+Example ex_sign_names :
+  match insert_sig 5000 4096 ex_state with
+  | Ok st' => map (fun i => ent_units (get_ent (d_files st') i)) (d_root_files st') = [[79; 116; 104; 101; 114]; msi_sigex_name; msi_sig_name]
+              /\ d_root_files st' = [2; 3; 1]
+  | _ => False
+  end.
+Proof. vm_compute. split; reflexivity. Qed.
+Example ex_sign_then_close_ok :
+  match insert_sig 5000 4096 ex_state with
+  | Ok st' => spec_tree_ok (d_files (close_dir st')) (f_child (get_ent (d_files (close_dir st')) (d_root st'))) (d_root_files st') = true
+  | _ => False
+  end.
+Proof. vm_compute. reflexivity. Qed.
+(* the specification does reject what the seeded change produced: two children whose names differ only in letter case *)
+Example ex_duplicate_rejected :
+  spec_unique [[5; 100; 105; 103; 105; 116; 97; 108; 115; 105; 103; 110; 97; 116; 117; 114; 101]; msi_sig_name] = false.
+Proof. vm_compute. reflexivity. Qed.
+(* dotless i (U+0131) upper-cases to I: "\5DıgitalSignature" is the signature name too, the Kelvin sign (U+212A) is not k *)
+Example ex_dotless_i_same : spec_same [5; 68; 305; 103; 305; 116; 97; 108; 83; 305; 103; 110; 97; 116; 117; 114; 101] msi_sig_name = true
+                            /\ spec_same [8490] [107] = false.
+Proof. vm_compute. split; reflexivity. Qed.
+(* a storage carrying the name makes DeleteFile refuse *)
+Example ex_storage_refused :
+  delete_file [79; 84; 72; 69; 82] (mkD [ex_entry [82] 5 (-2) 0; ex_entry [79; 116; 104; 101; 114] 1 0 0] [1] [] [] 0 512 64 4096 false) = Err E_STORAGE.
+Proof. vm_compute. reflexivity. Qed.
+(* InsertMSISignature refuses, before touching anything, a document whose root lists a STORAGE spelled like the signature stream
+   (entry 1, "\5DIGITALSIGNATURE", reached from the root's child link); the same entry as a stream is replaced *)
+Definition ex_slot_state (typ : Z) : dstate :=
+  mkD [mkDent (pad_runes [82; 0]) 4 5 1 (-1) (-1) 1 (-2) 0;
+       mkDent (pad_runes ([5; 68; 73; 71; 73; 84; 65; 76; 83; 73; 71; 78; 65; 84; 85; 82; 69] ++ [0])) 36 typ 1 (-1) (-1) (-1) 3 5000; blank; blank]
+      [1] ([-3; -2; -2] ++ [4; 5; 6; 7; 8; 9; 10; 11; 12; -2] ++ repeat (-1) 115) [] 0 512 64 4096 false.
+Example ex_storage_in_slot_refused :
+  list_root (ex_slot_state 1) = Ok [1] /\ sig_slot_blocked (d_files (ex_slot_state 1)) 1 = true /\
+  insert_sig 5000 4096 (ex_slot_state 1) = Err E_STORAGE /\ insert_sig 5000 0 (ex_slot_state 1) = Err E_STORAGE.
+Proof. vm_compute. repeat split; reflexivity. Qed.
+Example ex_stream_in_slot_replaced :
+  match insert_sig 5000 0 (ex_slot_state 2) with
+  | Ok st' => map (fun i => ent_units (get_ent (d_files st') i)) (d_root_files st') = [msi_sig_name]
+  | _ => False
+  end.
+Proof. vm_compute. reflexivity. Qed.
